@@ -95,7 +95,7 @@ func (ip *Interp) RunPath(fn *ssa.Function, params []int64, work Work, wantWitne
 				ip.recordViolation("panic", r.msg, r.stack, nil)
 				res.Outcome, res.Msg = "violation", r.msg
 			case unsupportedErr:
-				res.Outcome, res.Msg = "unsupported", r.msg+" at "+ip.stackString()
+				res.Outcome, res.Msg = "unsupported", r.msg+" at "+r.stack
 				ip.Stats.Unsupported[r.msg]++
 			default:
 				res.Outcome = "unsupported"
@@ -332,7 +332,7 @@ func registerVerifsym(ip *Interp) {
 		nc := ip.ctx.Not(c)
 		ip.nAssertQueries++
 		if !c.IsConst() && ip.evalBool(c) {
-			if ok, _ := ip.solve(nc); !ok {
+			if ok, _ := ip.solveZ3(nc); !ok {
 				return nil // holds for every value on this path
 			}
 		}
